@@ -4,4 +4,4 @@
         ({ let q = match req_query(*request) { Some(s) => s, None => ""@ };
            &&& (r is Ok) == (urlencoded_spec::<QueryType>(q) is Some)
            &&& r is Ok ==> r->Ok_0.inner == urlencoded_spec::<QueryType>(q)->Some_0 }), // @ok_iff_query_decodes_value_unaltered
-        r is Err ==> status_of(r->Err_0) == 400, // @undecodable_query_refused_with_400
+        r is Err ==> is_client_code(status_of(r->Err_0)), // @undecodable_query_refused_with_400
